@@ -23,6 +23,7 @@ type feReq struct {
 	Compile bool     `json:",omitempty"`
 	Code    bool     `json:",omitempty"`
 	Dump    bool     `json:",omitempty"`
+	Twice   bool     `json:",omitempty"`
 	Conc    []feReq  `json:",omitempty"`
 	Gor     int      `json:",omitempty"`
 	Reps    int      `json:",omitempty"`
@@ -38,6 +39,7 @@ type feRes struct {
 	CodeSHA    string
 	Code       string
 	CompileErr string
+	Repeat     string
 	Conc       []map[string]int
 	Fatal      string // the driver process died on this request
 	Lost       bool
